@@ -29,6 +29,7 @@ func (P) Rule() string {
 		"(b) a block of `seq` words: EVERY word over the 9-letter alphabet {req a,b,c; res a,b,c; export; export-and-reset; reset} up to length 5 (quick) / 7 (thorough), every word with a failing call " +
 		"over the 15-letter alphabet (+ failing response a,b,c; failing request a,b,c) up to length 4 / 5 and, up to renaming of the IDs, of length 5 / 6, each run on a fresh Logger, or " +
 		"(b') a `bulk N i…` history (N = 255..4098 requests, all but 1-17 completed, one export-and-reset, then a duplicate and a response for every entry left), or " +
+		"(b'') a `rep n pre unit post` history: the round `unit` repeated n = 255..4097 times after `pre`, then `post`, or " +
 		"(c) a concurrent run (2-8 goroutines; random programs over own/shared IDs with slow and failing bodies, or duplicate storms: every goroutine calls about the same ID, held in its body read " +
 		"until all are in flight) checked for linearisability, the linearisation replayed by the model; " +
 		"(d) an `hpark` schedule: a history, then an export / reset HANDLER call during whose answer another connection makes 1-2 calls (every such schedule over 2 IDs); " +
@@ -555,6 +556,89 @@ func runSeq(w string) core.Result {
 	return core.Result{Impl: strings.Join(outs, "|"), Fail: fail, Sig: sig}
 }
 
+// word runs the letters of w on the session; ok=false on an unknown letter.
+func (s *sess) word(w string, what string, fail, sig *string) ([]string, bool) {
+	outs := make([]string, 0, len(w))
+	for i := 0; i < len(w); i++ {
+		k, id, m, ok := letterOp(w[i])
+		if !ok {
+			return nil, false
+		}
+		if k == "optoff" || k == "opton" {
+			s.l.SetOption(har.PostDataLogging(k == "opton"), har.BodyLogging(k == "opton"))
+			s.t++
+			outs = append(outs, "ok")
+			continue
+		}
+		o, f, sg := s.apply(k, id, m)
+		outs = append(outs, o)
+		if f != "" && *fail == "" {
+			*fail, *sig = fmt.Sprintf("%s, op %d (%s %s): %s", what, s.t-1, k, id, f), sg
+		}
+	}
+	return outs, true
+}
+
+// lineSum: checksum of a line (kept in step with Drv/C17.lean lineSum).
+func lineSum(acc int, line string) int {
+	a := (acc*7 + 1) % 1000003
+	for i := 0; i < len(line); i++ {
+		a = (a*131 + int(line[i])) % 1000003
+	}
+	return a
+}
+
+// runRep: `rep n pre unit post` — LONG histories in the other dimension: on a fresh Logger the word
+// `pre`, then the word `unit` n times (n drains with an entry pending, n exports, n duplicate
+// requests, n rounds of other traffic …), then `post`. Same oracle as everywhere; the n rounds are
+// compared with the model as first round, last round and a checksum over all their lines.
+func runRep(ns, pre, unit, post string) core.Result {
+	n, err := strconv.Atoi(ns)
+	if err != nil || n < 0 || n > 100000 {
+		return core.Result{Impl: "bad-op"}
+	}
+	fix := func(w string) string {
+		if w == "-" {
+			return ""
+		}
+		return w
+	}
+	pre, unit, post = fix(pre), fix(unit), fix(post)
+	s := newSess(false)
+	for _, c := range []byte(pre + "/" + unit + "/" + post) {
+		s.salt = (s.salt*131 + int(c)) % 9973
+	}
+	what := fmt.Sprintf("history %q + %d × %q + %q", pre, n, unit, post)
+	var fail, sig string
+	o1, ok := s.word(pre, what, &fail, &sig)
+	if !ok {
+		return core.Result{Impl: "bad-op"}
+	}
+	sum := 0
+	var first, last []string
+	for k := 0; k < n; k++ {
+		o, ok := s.word(unit, what, &fail, &sig)
+		if !ok {
+			return core.Result{Impl: "bad-op"}
+		}
+		for _, line := range o {
+			sum = lineSum(sum, line)
+		}
+		if k == 0 {
+			first = o
+		}
+		last = o
+	}
+	o3, ok := s.word(post, what, &fail, &sig)
+	if !ok {
+		return core.Result{Impl: "bad-op"}
+	}
+	core.Count("rep:runs")
+	core.Stats["rep:rounds"] += n
+	return core.Result{Impl: "rep " + strings.Join(o1, "|") + " ;n=" + strconv.Itoa(n) + " first=" + strings.Join(first, "|") +
+		" last=" + strings.Join(last, "|") + " sum=" + strconv.Itoa(sum) + "; " + strings.Join(o3, "|"), Fail: fail, Sig: sig}
+}
+
 // ---- Exec ----
 
 type ex struct{ s *sess }
@@ -597,6 +681,8 @@ func (e *ex) Do(op string) core.Result {
 		return core.Result{Impl: impl, Fail: fail, Sig: sig}
 	case f[0] == "hpark" && len(f) == 4:
 		return runHPark(f[1], f[2], f[3])
+	case f[0] == "rep" && len(f) == 5:
+		return runRep(f[1], f[2], f[3], f[4])
 	case f[0] == "bulk" && len(f) == 3:
 		return runBulk(f[1], f[2])
 	case f[0] == "opt" && (len(f) == 4) && (f[1] == "post" || f[1] == "body"):
@@ -755,6 +841,10 @@ func (P) Nontrivial(ops []string, impl []string) bool {
 		}
 		if f[0] == "conc" || f[0] == "hpark" {
 			nt = nt || strings.HasPrefix(impl[i], "lin ")
+			continue
+		}
+		if f[0] == "rep" {
+			nt = nt || strings.Contains(impl[i], "+")
 			continue
 		}
 		if f[0] == "bulk" {
